@@ -118,6 +118,55 @@ def operator_check(ctx, n):
         ctx.ok(key)
 
 
+def sizes_only(n):
+    """`n_controls` of the REAL `operate` for n controls without enumerating the subsets: `combinations` (a module global of
+    majority.py) is stubbed to record the requested size and yield nothing."""
+    from qclib.gates import majority
+    seen = []
+
+    def stub(controls, k):
+        seen.append(int(k))
+        return iter(())
+
+    orig = majority.combinations
+    majority.combinations = stub
+    try:
+        majority.operate(Recorder(), list(range(n)), n)
+    finally:
+        majority.combinations = orig
+    return seen
+
+
+def binom_parity(w, k):
+    """C(w, k) mod 2 by Lucas: odd iff k is a bit-subset of w."""
+    return 1 if (k & ~w) == 0 and k <= w else 0
+
+
+def boundary_sizes(ctx, ns):
+    """Boundary pass: the size rule around the powers of two (n = 2^j - 1, 2^j, 2^j + 1, where the Lucas parity pattern of
+    binomial(k-1, n_min-1) changes) and odd / even n beyond the enumerable range.  The gate is symmetric in the controls: an
+    input of weight w flips the target sum_k C(w, k) times over the emitted sizes k, so the size list of the real code decides
+    the property for every input; evaluated for every weight, in particular ceil(n/2) - 1, ceil(n/2), ceil(n/2) + 1."""
+    lines = []
+    for n in ns:
+        ks = sizes_only(n)
+        ctx.count("boundary:majority sizes around 2^j")
+        lines.append((n, f"{n} : " + " ".join(str(k) for k in sorted(set(ks)))))
+        m = (n + 1) // 2
+        key = f"majority:sizes:n={n}"
+        bad = [w for w in range(n + 1) if (sum(binom_parity(w, k) for k in ks) % 2 == 1) != (w >= m)]
+        if len(ks) != len(set(ks)) or bad:
+            w = bad[0] if bad else -1
+            ctx.fail(key, f"size list {sorted(ks)} of operate for {n} controls: an input with {w} ones has its target "
+                          f"{'flipped' if w < m else 'not flipped'} (threshold {m})",
+                     {"call": "qclib.gates.majority.operate", "n": n, "sizes": sorted(ks), "weight": w, "sizes_only": True})
+        else:
+            ctx.ok(key, nontrivial=True, sample={"majority_n": n, "sizes": sorted(ks), "weights": n + 1})
+    for n, line in lines:
+        ctx.tie({"op": "majority_sizes", "lo": n, "hi": n}, [line], label=f"majority sizes n={n} (stubbed enumeration)",
+                driver=DRIVER, compare=lambda op, impl, model: None if impl == model else f"impl={impl!r} model={model!r}")
+
+
 def run(ctx, nmax=None):
     fp = source_fingerprint()
     if fp != EXPECTED_FINGERPRINT:
@@ -139,6 +188,7 @@ def run(ctx, nmax=None):
             next((f"impl={a!r} model={b!r}" for a, b in itertools.zip_longest(impl, model) if a != b), "length"))
     for n in range(1, 7 if ctx.quick else 9):
         operator_check(ctx, n)
+    boundary_sizes(ctx, [24, 25, 31, 32, 33, 34, 47, 48, 63, 64, 65, 66] if ctx.quick else list(range(24, 131)))
 
 
 def search(ctx, hints):
@@ -147,4 +197,7 @@ def search(ctx, hints):
 
 def replay(ctx, r):
     n = int(r["n"])
+    if r.get("sizes_only"):
+        boundary_sizes(ctx, [n])
+        return
     check_n(ctx, n, n <= 16)
